@@ -229,7 +229,17 @@ pub fn v2(a: &[String]) -> Value {
         "response-cache-control", "response-content-disposition", "response-content-encoding", "response-content-language",
         "response-content-type", "response-expires", "torrent", "uploadId", "uploads", "versionId", "versioning", "versions", "website"];
     let path = a[0].clone();
-    let q = pairs(&a[1..]);
+    // `h:name=value` arguments are extra request headers (x-amz-* ones belong to CanonicalizedAmzHeaders), the rest is the query
+    let (hargs, qargs): (Vec<String>, Vec<String>) = a[1..].iter().cloned().partition(|x| x.starts_with("h:"));
+    let q = pairs(&qargs);
+    let extra: Vec<(String, String)> = hargs.iter().map(|x| { let (n, v) = x[2..].split_once('=').unwrap(); (n.to_ascii_lowercase(), v.to_owned()) }).collect();
+    let mut amz_names: Vec<&str> = extra.iter().filter(|(n, _)| n.starts_with("x-amz-")).map(|(n, _)| n.as_str()).collect();
+    amz_names.sort(); amz_names.dedup();
+    let mut amz = String::new();
+    for n in amz_names {
+        let vals: Vec<&str> = extra.iter().filter(|(m, _)| m == n).map(|(_, v)| v.trim()).collect();
+        amz.push_str(&format!("{n}:{}\n", vals.join(",")));
+    }
     let date = "Tue, 27 Mar 2007 19:36:42 +0000";
     let mut res = path.clone();
     let mut subs: Vec<&(String, String)> = q.iter().filter(|(n, _)| SUB.contains(&n.as_str())).collect();
@@ -239,15 +249,17 @@ pub fn v2(a: &[String]) -> Value {
         res.push_str(n);
         if !v.is_empty() { res.push('='); res.push_str(v); }
     }
-    let sts = format!("GET\n\n\n{date}\n{res}");
+    let sts = format!("GET\n\n\n{date}\n{amz}{res}");
     let mut m = <Hmac<Sha1> as KeyInit>::new_from_slice(SK.as_bytes()).unwrap();
     m.update(sts.as_bytes());
     let sig = base64_simd::STANDARD.encode_to_string(m.finalize().into_bytes());
-    let (st, calls, body) = send("GET", &path, &wire_query(&q), vec![("host".into(), "localhost".into()), ("date".into(), date.into()), ("authorization".into(), format!("AWS {AK}:{sig}"))]);
+    let mut hs: Vec<(String, String)> = vec![("host".into(), "localhost".into()), ("date".into(), date.into()), ("authorization".into(), format!("AWS {AK}:{sig}"))];
+    hs.extend(extra.iter().cloned());
+    let (st, calls, body) = send("GET", &path, &wire_query(&q), hs);
     let ok = calls.len() == 1;
     let mut args = vec!["sigv2".to_owned()];
     args.extend(a.iter().cloned());
-    json!({"violates": !ok, "input": {"path": path, "query": q, "string_to_sign": sts}, "expected": "authenticated (one backend invocation)",
+    json!({"violates": !ok, "input": {"path": path, "query": q, "extra_headers": extra, "string_to_sign": sts}, "expected": "authenticated (one backend invocation)",
            "observed": {"status": st, "backend_calls": calls, "body": body.chars().take(200).collect::<String>()}, "replay_args": args})
 }
 
